@@ -73,10 +73,12 @@ def execute(case):
             if sp["kind"] == 'unix':
                 s = CircusSocket(name=sp["name"],
                                  path=os.path.join(tmp, sp["name"] + '.sock'),
-                                 so_reuseport=False)
+                                 so_reuseport=False,
+                                 blocking=bool(sp.get("blocking")))
             else:
                 s = CircusSocket(name=sp["name"], host='127.0.0.1', port=0,
-                                 so_reuseport=bool(sp.get("reuseport")))
+                                 so_reuseport=bool(sp.get("reuseport")),
+                                 blocking=bool(sp.get("blocking")))
             socks.append(s)
         hc = dict(case["history"])
         if cfgmode:
@@ -277,6 +279,8 @@ def _strategy():
             sp = {"name": ['web', 'api', 'ctl'][i], "kind": kind}
             if kind == 'inet' and draw(st.integers(0, 4)) == 0:
                 sp["reuseport"] = True
+            if draw(st.integers(0, 3)) == 0:
+                sp["blocking"] = True
             if kind == 'inet' and draw(st.integers(0, 2)) == 0:
                 sp["proto"] = 'tcp'
             socks.append(sp)
